@@ -373,6 +373,9 @@ def _k_modelfunc(self, name, params, ret="float", n_labels=None):
     if self.mode == "native":
         return native_model_function(name, params, ret, n_labels)
     f = AbsFunc(name, [(p, "pk") for p in params], ret=ret)
+    from . import vc as _vc
+
+    _vc.HUB_NAMES.add(name)
     if ret == "int" and n_labels is not None and params:
         xs = [z3.Real(f"{name}.x{i}") for i in range(len(params))]
         app = f._a.F[0](*xs)
